@@ -104,9 +104,12 @@ class X509(object):
         if self.sigalg == RSA_PSS_OID:
             sigalg_hash = signature_algorithm_identifier.getChild(1)
             sigalg_hash = bytes(sigalg_hash.getChild(0).value)
-            self.sigalg = AlgorithmOID.oid[sigalg_hash]
+            sigalg_oid = sigalg_hash
         else:
-            self.sigalg = AlgorithmOID.oid[self.sigalg]
+            sigalg_oid = self.sigalg
+        if sigalg_oid not in AlgorithmOID.oid:
+            raise SyntaxError("Unknown signature algorithm in certificate")
+        self.sigalg = AlgorithmOID.oid[sigalg_oid]
 
         # Get the tbsCertificate
         tbs_certificate = parser.getChild(0)
@@ -267,7 +270,7 @@ def _rsa_pubkey_parsing(subject_public_key_info, cert_alg):
     self_subject_public_key = ASN1Parser(self_subject_public_key).value[1:]
 
     # Adjust for BIT STRING encapsulation
-    if subject_public_key.value[0]:
+    if not subject_public_key.value or subject_public_key.value[0]:
         raise SyntaxError()
     subject_public_key = ASN1Parser(subject_public_key.value[1:])
 
@@ -281,6 +284,8 @@ def _rsa_pubkey_parsing(subject_public_key_info, cert_alg):
     # definition
     n = bytesToNumber(modulus.value)
     e = bytesToNumber(public_exponent.value)
+    if not n or not e:
+        raise SyntaxError("Invalid RSA public key in certificate")
 
     # Create a public key instance
     public_key = _createPublicRSAKey(n, e, cert_alg)
